@@ -468,3 +468,29 @@ Theorem C20_key_not_determining_refuted :
   kinds N.eqb [1; 1; 0] (init (two (user 1%N) (user 2%N)) empty) = [KRead; KMemoWrite; KRead].
 Proof. exact key_not_determining_refuted. Qed.
 Print Assumptions C20_key_not_determining_refuted.
+
+(* ============================================================================================ *)
+(* iteration over the key set of a shared container (deepcopy / pickling in Python / dict() / json walk dicts)   *)
+(* ============================================================================================ *)
+(* an iteration over a container nobody publishes NEW keys into is disciplined (it always goes through) ... *)
+Theorem C20_iter_frozen_keys_confluent :
+  forall (V R : Type) (memo : N -> option V) (base : store V) ks (okv errv : R) kn,
+    (forall x, In x ks -> memo x = None) -> ok memo base kn (iterate ks okv errv) okv.
+Proof. exact ok_iterate_frozen. Qed.
+Print Assumptions C20_iter_frozen_keys_confluent.
+
+(* ... but the idempotent publication of a NEW key - confluent for every reader of the key - is NOT disciplined against an
+   iterator of the container: first look, publication, second look: RuntimeError (seeded C20-10: deepcopy of the row groups
+   in __getitem__ against the first filtered read memoising converted_min/max; the wave-3 fix 051eed4 removed the same race
+   from copy.deepcopy(pf)).  No executed action is a destructive write; with the key pre-existing the schedule is harmless. *)
+Theorem C20_iter_vs_new_key_refuted :
+  let s0 : store N := upd empty 8%N 5%N in
+  let it : prog N N := iterate [7; 8]%N 0%N 1%N in
+  let pub : prog N N := cta_noreadback 7%N [] (fun _ => 42%N) (fun v => Ret v) in
+  result (exec [0; 0; 1; 1; 0; 0] (init (two it pub) s0)) 0 = Some 1%N /\
+  fst (solo it s0) = 0%N /\
+  result (exec [0; 0; 1; 1; 0; 0] (init (two it pub) s0)) 1 = Some 42%N /\
+  ~ In KDestructiveWrite (kinds N.eqb [0; 0; 1; 1; 0; 0] (init (two it pub) s0)) /\
+  result (exec [0; 0; 1; 1; 0; 0] (init (two it (Put 7%N 42%N (Ret 42%N))) (upd s0 7%N 42%N))) 0 = Some 0%N.
+Proof. exact iter_vs_new_key_refuted. Qed.
+Print Assumptions C20_iter_vs_new_key_refuted.
